@@ -97,7 +97,7 @@ ExtPad(x) == x[Len(x)]
 Mutators == {"ext", "lit", "assignlit", "attach", "ctorbuf", "ctorfill", "ctorcap", "copy", "assign", "append",
              "prepend", "appendb", "prependb", "appendc", "clear", "resize", "reserve", "detach", "replacec",
              "replace", "lower", "upper", "trim", "printf", "printfw", "join", "split", "lpush"}
-Queries == {"cstr", "cstrm", "compare", "rel", "eq", "starts", "ends", "findc", "findlastc", "findcs", "find",
+Queries == {"cstr", "cstrm", "compare", "cmpx", "rel", "eq", "starts", "ends", "findc", "findlastc", "findcs", "find",
             "finds", "findlast", "substr", "token", "tokens"}
 Ops == Mutators \cup Queries
 
@@ -127,6 +127,7 @@ InDomain(op, s, a) ==
     [] op = "join"      -> a.n \in 0..255 /\ \A t \in 1..Len(s.lst) : Definite(s.lst[t])
     [] op = "split"     -> NulFree(v) /\ NulFree(a.d) /\ a.n \in {0, 1}
     [] op \in {"compare", "rel"} -> a.k \in Vars /\ NulFree(v) /\ NulFree(s.val[a.k])
+    [] op = "cmpx"      -> a.k \in Vars /\ NulFree(v) /\ NulFree(s.val[a.k]) /\ a.n >= 0
     [] op \in {"eq", "starts", "ends"} -> a.k \in Vars /\ Definite(v) /\ Definite(s.val[a.k])
     [] op \in {"findc", "findlastc"} -> Definite(v) /\ a.n \in 0..255
     [] op = "findcs"    -> NulFree(v) /\ a.n \in 1..255 /\ a.n2 >= 0
@@ -178,6 +179,14 @@ Result(op, s, a) ==
   LET v == s.val[a.i]  w == IF a.k \in Vars THEN s.val[a.k] ELSE <<>> IN
   CASE op \in {"cstr", "cstrm"} -> [NoRes EXCEPT !.rb = v]      \* r = the byte at view[length()], must be 0
     [] op = "compare"  -> [NoRes EXCEPT !.r = Cmp(v, w)]
+    \* the length-limited and the case-insensitive comparisons (members in r, static const char* versions in rn), base 3 digits
+    \* sign + 1 of: compare(w, n), compareIgnoreCase(w), compareIgnoreCase(w, n) [, static compare(v, w)]; then
+    \* equalsIgnoreCase(w) + 2 * equalsIgnoreCase(w, n).  Comparing at most n bytes of terminated texts = comparing prefixes.
+    [] op = "cmpx"     -> LET vn == Take(v, Min2(a.n, Len(v)))  wn == Take(w, Min2(a.n, Len(w)))
+                              cn == Cmp(vn, wn)  ci == Cmp(Lower(v), Lower(w))  cin == Cmp(Lower(vn), Lower(wn))
+                              tri == (cn + 1) + 3 * (ci + 1) + 9 * (cin + 1) IN
+                          [NoRes EXCEPT !.r = tri + 27 * ((IF ci = 0 THEN 1 ELSE 0) + (IF cin = 0 THEN 2 ELSE 0)),
+                                        !.rn = tri + 27 * (Cmp(v, w) + 1)]
     [] op = "rel"      -> LET c == Cmp(v, w) IN                  \* bit mask  <  <=  >  >=
                           [NoRes EXCEPT !.r = (IF c < 0 THEN 1 ELSE 0) + (IF c <= 0 THEN 2 ELSE 0)
                                                + (IF c > 0 THEN 4 ELSE 0) + (IF c >= 0 THEN 8 ELSE 0)]
